@@ -132,7 +132,7 @@ pub fn run(ctx: &Ctx) -> Outcome {
          filled white on transparent and used as clip paths; every pixel whose square is more than 1 px from the exact outline (f64, 256 samples per curve) must be 255 if the winding rule says inside and 0 otherwise. Non-trivial: inside and outside pixels asserted; distinct = hash of the case.",
     );
     let secs = if ctx.quick() { 40. } else { 900. };
-    run_cases(ctx, &mut out, SubSpec { name: "curved_fills_and_clips", cases: ctx.n(8_000, 1_000_000), exhaustive: false, max_secs: secs }, |i, want, st| {
+    run_cases(ctx, &mut out, SubSpec { name: "curved_fills_and_clips", cases: ctx.n(20_000, 1_000_000), exhaustive: false, max_secs: secs }, |i, want, st| {
         let mut rng = ctx.rng("curved_fills_and_clips", i);
         let w = rng.int(6, 48) as i32;
         let h = rng.int(6, 48) as i32;
